@@ -391,6 +391,12 @@ pub fn handle_history(parts: &[&str], out: &mut impl Write) {
     // `files`: A and B are both loaded through `AsepriteFile::read_file` (temp files); B may be a
     // file that does not load: then the outcome after the history must equal the fresh outcome
     let files = parts.len() == 5 && parts[4] == "files";
+    // `alt`: A and B are loaded, observed and dropped alternately 16 times on one thread; every
+    // observation of B must equal the fresh one (state keyed by a freed object's address)
+    if parts.len() == 5 && parts[4] == "alt" {
+        history_alt(parts, out);
+        return;
+    }
     let fail_at: Option<usize> = if parts.len() == 5 {
         parts[4].strip_prefix("fail:").and_then(|n| n.parse().ok())
     } else {
@@ -467,6 +473,66 @@ pub fn handle_history(parts: &[&str], out: &mut impl Write) {
             }
         }
         _ => writeln!(out, "bad-hex").unwrap(),
+    }
+    writeln!(out, "END").unwrap();
+    out.flush().unwrap();
+}
+
+fn history_alt(parts: &[&str], out: &mut impl Write) {
+    writeln!(out, "CASE {}", parts[1]).unwrap();
+    out.flush().unwrap();
+    let (a, b) = match (crate::unhex(parts[2]), crate::unhex(parts[3])) {
+        (Some(a), Some(b)) => (a, b),
+        _ => {
+            writeln!(out, "bad-hex\nEND").unwrap();
+            return;
+        }
+    };
+    let b2 = b.clone();
+    let fresh = std::thread::spawn(move || {
+        crate::guard(|| {
+            let ase = AsepriteFile::read(io::Cursor::new(&b2)).ok()?;
+            Some(observe_all(&ase, b2.len()))
+        })
+        .flatten()
+    })
+    .join()
+    .ok()
+    .flatten();
+    let fresh2 = fresh.clone();
+    let verdict = std::thread::spawn(move || {
+        crate::guard(|| {
+            for round in 0..16 {
+                if let Ok(first) = AsepriteFile::read(io::Cursor::new(&a)) {
+                    let _ = observe_all(&first, a.len());
+                    drop(first);
+                }
+                let ase = AsepriteFile::read(io::Cursor::new(&b)).ok()?;
+                let o = observe_all(&ase, b.len());
+                drop(ase);
+                if let Some(f) = &fresh2 {
+                    if &o != f {
+                        let k = f.iter().zip(o.iter()).position(|(x, y)| x != y).unwrap_or(0);
+                        let show = |v: &Vec<String>| v.get(k).map(|s| s.chars().take(160).collect::<String>()).unwrap_or_default();
+                        return Some(format!("differs after-history round {} line {} fresh=[{}] after=[{}]", round, k, show(f), show(&o)));
+                    }
+                }
+            }
+            Some("same".to_string())
+        })
+        .flatten()
+    })
+    .join()
+    .ok()
+    .flatten();
+    match (fresh, verdict) {
+        (Some(_), Some(v)) => {
+            writeln!(out, "load ok").unwrap();
+            if v != "same" {
+                writeln!(out, "{}", v).unwrap();
+            }
+        }
+        _ => writeln!(out, "load failed-or-panicked").unwrap(),
     }
     writeln!(out, "END").unwrap();
     out.flush().unwrap();
